@@ -110,8 +110,8 @@ MEASURES = {
         },
     },
     "exmod": {
-        "measure": "emit_name: list -> each element (a str), depth 1",
-        "sites": {"exmod~>exmod#0": "assumed: the recursive call receives one str element of the list, the str branch does not recurse"},
+        "measure": "nesting depth of emit_name (a finite, acyclic list structure; a str has depth 0 and that branch does not recurse)",
+        "sites": {"exmod~>exmod#0": "structural-map"},
     },
     "get_module_contents": {
         "measure": "depth of the package directory tree",
